@@ -14,27 +14,22 @@ Proof. exact good_init. Qed.
 Print Assumptions C04_CompOK_init.
 
 (* ... is preserved by EVERY step of EVERY operation on EVERY class (any order of creation, look-up,
-   complement, drop), for arbitrary class constants different from 0 and explicit lengths different from 0
-   (Good = registry invariant + collected + CompOK + no zero length + kinds) ... *)
+   complement, drop), for arbitrary class constants and arbitrary lengths: zero, negative and default
+   lengths included, no guard  (Good = registry invariant + collected + CompOK + non-empty names + kinds) ... *)
 Theorem C04_CompOK_step : forall ct st o,
-  consts_nonzero ct -> op_guard o -> Good ct st -> Good ct (fst (step ct st o)).
+  Good ct st -> Good ct (fst (step ct st o)).
 Proof. exact good_step. Qed.
 Print Assumptions C04_CompOK_step.
 
 (* ... hence holds in every reachable state *)
-Theorem C04_CompOK_reachable : forall ct n ops,
-  consts_nonzero ct -> Forall op_guard ops -> Good ct (run ct (init ct n) ops).
+Theorem C04_CompOK_reachable : forall ct n ops, Good ct (run ct (init ct n) ops).
 Proof. exact good_reachable. Qed.
 Print Assumptions C04_CompOK_reachable.
 
-(* the two guards cannot be dropped: the faithful model refutes the unguarded statements
-   (both witnesses replay on the implementation) *)
-Theorem C04_CompOK_refuted_for_zero_length : exists ops, ~ CompOK (run ctD (init ctD 2) ops).
-Proof. exact CompOK_refuted_for_zero_length. Qed.
-Print Assumptions C04_CompOK_refuted_for_zero_length.
-
+(* the restriction to names with an unstarred base cannot be dropped: the faithful model refutes the
+   statement for x* / x** (the witness replays on the implementation) *)
 Theorem C04_CompOK_refuted_for_double_star :
-  exists ops, Forall op_guard ops /\ ~ CompOK_any_base (run ctD (init ctD 2) ops).
+  exists ops, ~ CompOK_any_base (run ctD (init ctD 2) ops).
 Proof. exact CompOK_refuted_for_double_star. Qed.
 Print Assumptions C04_CompOK_refuted_for_double_star.
 
@@ -95,21 +90,16 @@ Theorem C04_dtype_conflict_no_change : forall fuel ct c st ci name l dtype prefi
 Proof. exact dtype_conflict_no_change. Qed.
 Print Assumptions C04_dtype_conflict_no_change.
 
-(* ~d is never refused: in every Good state, for a live domain d of positive length whose name has an
-   unstarred, non-empty base, in a non-failing class, ~d returns or creates (with C04_invert_spec: the
-   right object) *)
+(* ~d is never refused: in every Good state, for a live domain d (of any length: identifiers reads the
+   attribute `length`, not len()) whose name has an unstarred, non-empty base, in a non-failing class, ~d
+   returns or creates (with C04_invert_spec: the right object) *)
 Theorem C04_invert_never_refused : forall ct st dst src i ob l ci,
   Good ct st -> get_root st src = Some i -> live_obj (heap st) i ob -> o_data ob = DDom l ->
-  (0 < l)%Z -> base_unstarred (o_name ob) -> nonempty (cname_of (o_name ob)) = true ->
+  base_unstarred (o_name ob) -> nonempty (cname_of (o_name ob)) = true ->
   nth_error ct (o_cls ob) = Some ci -> c_fail ci = FNone ->
   exists o, snd (step ct st (OComplement dst src)) = Returned o \/ snd (step ct st (OComplement dst src)) = Created o.
 Proof. exact invert_never_refused. Qed.
 Print Assumptions C04_invert_never_refused.
-
-(* the guard on the length is necessary: DomainS('a', -3) exists and ~a raises ValueError (len() < 0) *)
-Theorem C04_invert_refused_for_negative_length : ~ invert_never_refused_full.
-Proof. exact invert_never_refused_full_refuted. Qed.
-Print Assumptions C04_invert_refused_for_negative_length.
 
 (* the fuel of the identifiers <-> cls(...) recursion: k trailing stars need fuel k + 3; the fuel 8 used by
    `step` never runs out for (resolved) names with at most five trailing stars *)
